@@ -41,10 +41,12 @@ The code is modelled **as it is** (default features: one process-wide arena, no 
                    `drop ow`; an effect's `Arc<RwLock<EffectInner>>` owns the channel `Sender` ⇒
                    `Inner::drop` wakes the task, which will end (channel.rs) — `ready` derives
                    this from the entry being gone.
+    - `clearedRec` / `deadRec` = the record right after the `mem::take`s (resp. at the start of `Drop`);
+      `dropFrames` = the destructor of the removed value.
 * `cleanupOwner`  — `Owner::cleanup`;  `dropOwner` — last `Owner` handle dropped;
   `disposeKey`    — `ArenaItem::dispose` (`arena.remove`, value dropped).
 * `potential`     — fuel for `runFrames` (structural recursion); `Theorems/C08` proves it suffices.
-* `pauseWalk`     — `Owner::pause/resume` (explicit stack over `children`).
+* `pauseWalk`     — `Owner::pause/resume` (explicit stack over `children`); `ownerPaused` — `Owner::paused`.
 * reactive layer (`SigRec`, `MemoRec`, `EffRec`, `execBOp`, `runMemo`, `pollEff`, `setSig`):
     - `Effect::new`: `effect_base` (`channel()`, `observer.notify()`, `Owner::new()`), task spawned,
       `ArenaItem::new_with_storage(Some(inner))`; task loop `while rx.next().await.is_some()`:
